@@ -22,7 +22,12 @@ RULE = ("grid: every pair of (required, defaulted, *args, **kwargs) signatures w
         "(4096 pairs) x {function in the instance dict, bound method, verifyClass}, plus every interface signature "
         "against methods / classmethods that take their instance through *args (def m(*va[, **kw])); "
         "aggregation stream (each case preceded by a random set of single-name look-ups on the interface, its "
-        "base and a derived interface: [], in, get, queryDescriptionFor, existing and unknown names): "
+        "base and a derived interface: [], in, get, queryDescriptionFor, existing and unknown names; ~12% of the "
+        "descriptions stored under a key that is not their __name__: Attribute('word'), IOther['m'], Method('m'), "
+        "a = b = Attribute(doc), with or without something under that other name on the candidate; a dedicated "
+        "'alias' stream where most are; a 'seq' stream of 2-3 verifications in one process sharing function objects "
+        "as instance-dict function / class-body method under verifyObject / verifyClass with __defaults__ reassigned "
+        "in between, every verification judged on its own): "
         "interfaces with 1-6 names over a base and a derived interface (overrides included), each "
         "implementation missing / compatible / incompatible / non-callable / non-introspectable, "
         "declared directly, through a derived interface or not at all, tentative on/off, verifyObject on "
@@ -115,6 +120,8 @@ ATTR_OF = {
     "classmethod": ("method", "method"),
     "staticmethod": ("function", "function"),
     "instfunc": ("function", None),
+    "poolfunc_inst": ("function", None),       # a function object shared with other verifications, in the instance dict
+    "poolfunc_method": ("method", "function"),  # the same function object in a class body (its first parameter is self)
     "builtin": ("builtin", "builtin"),
     "methdesc": (None, "builtin"),
     "property": ("other", "property"),
@@ -173,6 +180,7 @@ def _agg_case(rng):
         level = rng.choice(["base", "own", "own", "override"])
         is_attr = rng.random() < 0.3
         kinds = [k for k, v in ATTR_OF.items() if v[1 if on_class else 0] is not None]
+        kinds = [k for k in kinds if not k.startswith("poolfunc")]
         if cand == "class":
             kinds.remove("staticmethod")        # verifyClass strips a parameter of staticmethods: unjudged stream
         weights = {"missing": 5, "method": 8, "classmethod": 2, "instfunc": 3, "staticmethod": 1}
@@ -202,6 +210,7 @@ def _agg_case(rng):
         if level == "override" and rng.random() < 0.7:
             el["base_params"] = params(rng.choice(ALL_SIGS))
         elems.append(el)
+    _add_aliases(rng, elems, on_class)
     # what a program may have asked the interface before verifying: single-name look-ups
     # (the outcome of verification must not depend on them)
     pre = []
@@ -221,6 +230,98 @@ def _agg_case(rng):
                                               rng.choice(["getitem", "contains", "get", "query"]), "nope"])
     return {"stream": "agg", "vt": vt, "tentative": rng.random() < 0.3,
             "declare": rng.choice([0, 0, 1, 1, 2]), "cand": cand, "elems": elems, "pre": pre}
+
+
+def _add_aliases(rng, elems, on_class, p=0.12):
+    """descriptions whose __name__ differs from the key they are stored under; sometimes the candidate
+    has something under that other name too (which must not matter: the contract names the KEY)"""
+    for i, el in enumerate(elems):
+        if el["level"] == "override" or "alias" in el or rng.random() >= p:
+            continue
+        if el["desc"]["kind"] == "attr":
+            later = [j for j in range(i + 1, len(elems)) if elems[j]["desc"]["kind"] == "attr"
+                     and elems[j]["level"] == el["level"] and "alias" not in elems[j]]
+            if later and rng.random() < 0.4:
+                j = rng.choice(later)
+                el["alias"] = {"how": "shared", "with": j}
+                elems[j]["alias"] = {"how": "second", "of": i}
+                continue
+            el["alias"] = {"how": "word", "name": "al%d" % i}
+        elif rng.random() < 0.75:
+            el["alias"] = {"how": "reuse", "name": "al%d" % i}
+        else:
+            el["alias"] = {"how": "ctor", "name": "al%d" % i}
+            el["desc"] = {"kind": "method", "params": "", "sig": [0, 0, 0, 0]}
+        if rng.random() < 0.6:
+            # something under the description's own name
+            if el["desc"]["kind"] == "method" and rng.random() < 0.7:
+                msig = tuple(el["desc"]["sig"])
+                kind = "method"
+                el["alias_impl"] = {"kind": kind, "params": params(msig, "self"), "sig": list(msig), "has_first": True}
+            else:
+                el["alias_impl"] = {"kind": "other", "params": "", "sig": [0, 0, 0, 0], "has_first": False}
+
+
+def _alias_case(rng):
+    """a small interface in which most descriptions are stored under a key that is not their __name__"""
+    c = _agg_case(rng)
+    for el in c["elems"]:
+        for k in ("alias", "alias_impl"):
+            el.pop(k, None)
+        if el["level"] == "override":
+            el["level"] = "own"
+            el.pop("base_params", None)
+    _add_aliases(rng, c["elems"], c["cand"] != "instance", p=0.8)
+    c["stream"] = "alias"
+    return c
+
+
+POOL_SIGS = [sg for sg in ALL_SIGS if (sg[0] + sg[1] >= 1 or sg[2]) and sg[0] + sg[1] <= 4]
+
+
+def _seq_cases(rng):
+    """a sequence of 2-3 verifications in one process whose candidates share function objects in different
+    roles (plain function in an instance dict / method in a class body, verifyObject / verifyClass), possibly
+    with __defaults__ reassigned in between; every prefix is emitted as a self-contained case (the earlier
+    steps are its history), so each verification is judged on its own"""
+    nfuncs = rng.randint(1, 2)
+    sigs = {}
+    funcs = {}
+    for k in range(nfuncs):
+        sg = rng.choice(POOL_SIGS)
+        sigs["f%d" % k] = sg
+        funcs["f%d" % k] = params(sg)
+    steps = []
+    for _ in range(rng.randint(2, 3)):
+        role = rng.choice(["inst", "method_obj", "method_cls"])
+        step = {"stream": "seq", "vt": "c" if role == "method_cls" else "o", "tentative": rng.random() < 0.2,
+                "declare": rng.choice([0, 1, 1, 1]), "cand": "class" if role == "method_cls" else "instance",
+                "elems": []}
+        if steps and rng.random() < 0.3:
+            fname = rng.choice(sorted(sigs))
+            r, o, va, kw = sigs[fname]
+            k = rng.randint(0, r + o)
+            sigs[fname] = (r + o - k, k, va, kw)
+            step["set_defaults"] = {fname: k}
+        for fname in sorted(sigs):
+            r, o, va, kw = sigs[fname]
+            if rng.random() < 0.6:
+                # an interface signature that the function satisfies in ONE of its two roles
+                if rng.random() < 0.5:
+                    isig = (r, o, va, kw)                                  # matches the plain function
+                else:
+                    isig = (max(0, r - 1), o if r >= 1 else max(0, o - 1), va, kw)   # matches the method
+            else:
+                isig = rng.choice(ALL_SIGS)
+            kind = "poolfunc_inst" if role == "inst" else "poolfunc_method"
+            step["elems"].append({"level": "own", "desc": {"kind": "method", "params": params(isig), "sig": list(isig)},
+                                  "impl": {"kind": kind, "func": fname, "params": params(sigs[fname]),
+                                           "sig": list(sigs[fname]), "has_first": False}})
+        steps.append(step)
+    out = []
+    for i, st in enumerate(steps):
+        out.append(dict(st, funcs=funcs, history=steps[:i]))
+    return out
 
 
 UNJUDGED = [
@@ -255,8 +356,14 @@ def _unjudged():
 
 def generate(run, tier):
     rng = run.rng("agg")
-    n = 1500 if tier == "quick" else 20000
-    return _grid() + [_agg_case(rng) for _ in range(n)] + _unjudged()
+    n = 1300 if tier == "quick" else 20000
+    cases = _grid() + [_agg_case(rng) for _ in range(n)]
+    rng = run.rng("alias")
+    cases += [_alias_case(rng) for _ in range(300 if tier == "quick" else 4000)]
+    rng = run.rng("seq")
+    for _ in range(250 if tier == "quick" else 3000):
+        cases += _seq_cases(rng)
+    return cases + _unjudged()
 
 
 # --------------------------------------------------------------------------- Coq terms
@@ -325,7 +432,9 @@ def coq_case(case, obs, mode):
         el = elems[i]
         d = el["desc"]
         desc = "DAttr" if d["kind"] == "attr" else "(DMethod %s)" % _sig(d["sig"])
-        terms.append("(%d, %s, %s)" % (i, desc, _attr_val(case, el)))
+        # an exception names the DESCRIPTION; two keys sharing one description object share its number
+        num = el["alias"]["of"] if el.get("alias", {}).get("how") == "second" else i
+        terms.append("(%d, %s, %s)" % (num, desc, _attr_val(case, el)))
     oracle = C.clist(["(%d, %s)" % (i, C.clist(["(%d, %s, %s, %s)" % (k, C.cbool(kw), C.cbool(a), C.cbool(b))
                                                  for k, kw, a, b in rows]))
                       for i, rows in obs["oracle"]])
@@ -365,7 +474,7 @@ def kind(case, obs):
         return "unjudged:%s:%s" % (case["label"], out)
     if case["stream"] == "grid":
         return "grid:%s:%s" % (case["how"], out)
-    return "agg:%s:%s" % (case["vt"], out if len(out) < 60 else out[:57] + "...")
+    return "%s:%s:%s" % (case["stream"], case["vt"], out if len(out) < 60 else out[:57] + "...")
 
 
 def finding_key(case, obs, mode):
@@ -389,17 +498,24 @@ def replay_text(case, obs, mode):
                 body.append("    def n%d(%s): pass" % (i, el["base_params"]) if "base_params" in el
                             else "    n%d = Attribute('b')" % i)
         im = el["impl"]
-        cls.append("    # n%d: implementation kind %s(%s)" % (i, im["kind"], im.get("params", "")))
+        cls.append("    # n%d: implementation kind %s(%s)%s%s" % (
+            i, im["kind"], im.get("params", ""),
+            "; the description is stored under this key but its __name__ comes from %r" % (el["alias"],) if "alias" in el else "",
+            "; the candidate also has %r under that name" % (el["alias_impl"]["kind"],) if "alias_impl" in el else ""))
     return ("# PURE_PYTHON=%s; candidate kind %s, declare=%s, tentative=%s, verify%s\n"
             "from zope.interface import Interface, Attribute\n"
             "class IBase(Interface):\n%s\nclass I(IBase):\n%s\nclass C:\n%s\n"
             "# (exact construction: harness/drivers/c17_driver.py build_candidate; replay with bin/check C17 --replay <this file>)\n"
+            "# shared function objects: %r; earlier verifications in the same process: %r\n"
             "# look-ups performed before verifying (interface, operation, name): %r\n"
             "# names reported by I.namesAndDescriptions(all=True) after verifying (element numbers): %r\n"
             "# observed: %r"
             % ("1" if mode == "py" else "0", case["cand"], case["declare"], case["tentative"],
                "Class" if case["vt"] == "c" else "Object", "\n".join(body) or "    pass", "\n".join(own) or "    pass",
-               "\n".join(cls) or "    pass", case.get("pre", []), obs.get("order"), obs.get("out")))
+               "\n".join(cls) or "    pass", case.get("funcs", {}),
+               [(h["vt"], h["cand"], h.get("set_defaults"), [(e["desc"]["params"], e["impl"]["kind"], e["impl"].get("func"))
+                                                            for e in h["elems"]]) for h in case.get("history", [])],
+               case.get("pre", []), obs.get("order"), obs.get("out")))
 
 
 TECHNIQUE = ("Coq proof over Gallina kernels regenerated from verify.py (_incompat; _verify_element, _verify, verifyClass, "
